@@ -26,6 +26,7 @@ func init() {
 			NotCovered: "behaviour of the HTTP client under each fault kind; atomicity of renameio itself (trusted); disk-full and fsync semantics.",
 			Rules: map[string]string{"C13-R1": "download / replace protocol tables", "C13-R2": "who may mutate files",
 				"C13-R3": "commit only after success", "C13-R4": "invalid index entries skipped, not aborting",
+				"C13-R7": "exact HTTP status check; only the size-limited reader that fails at the limit is used on a list's path",
 				"C13-R6": "blocked-service index: any invalid entry rejects the whole update",
 				"C13-R5": "configuration wiring: each kind of list (rule lists, their index, blocked-service index, safe search) gets its own size limit, staleness, timeout and URL"},
 		}})
@@ -224,6 +225,45 @@ func c13Commit(c *an.Ctx, rule string, fn *ssa.Function, what string, commit ssa
 }
 
 func runC13(c *an.Ctx) {
+	// ---- R7: the status check is exact; no silently truncating reader on a list's path
+	c.Floor("C13-R7", 2)
+	decide(c, "C13-R7", "agdhttp.CheckStatus", an.DecideCfg{
+		Dom: an.Domain{"(p0.StatusCode == p1)": an.Bools},
+		OnCall: func(it *an.Interp, name string, args []an.AV) (an.AV, bool) {
+			if strings.HasSuffix(name, ".Get") || strings.HasSuffix(name, "fmt.Errorf") {
+				return an.Sym("x"), true
+			}
+			return an.AV{}, false
+		},
+		Expect: func(f an.Features, o an.AOutcome) string {
+			if len(o.Ret) != 1 {
+				return "an error result"
+			}
+			if f.B("(p0.StatusCode == p1)") != (o.Ret[0].Kind == an.KNil) {
+				return fmt.Sprintf("nil exactly when the status code equals the expected one (a 206 or 203 answer carries a partial or transformed body); got %s for equal=%v", o.RetString(), f.B("(p0.StatusCode == p1)"))
+			}
+			return ""
+		},
+	})
+	nLim := 0
+	for _, fn := range c.AllFns {
+		k := an.FnKey(fn)
+		if fn.Blocks == nil || c.IsTestFile(fn.Pos()) || !(strings.HasPrefix(k, "filter/") || strings.HasPrefix(k, "agdhttp.")) {
+			continue
+		}
+		for _, call := range an.Calls(fn) {
+			switch an.CalleeName(call) {
+			case "io.LimitReader":
+				c.Bad("C13-R7", k+" io.LimitReader", call.Pos(), "the standard library's LimitReader ends the stream silently at the limit: a list longer than the limit is read back cut in the middle of a line with no error")
+			case "github.com/AdguardTeam/golibs/ioutil.LimitReader":
+				nLim++
+				c.Ok("C13-R7", k+" size-limited reader", call.Pos(), "the reader that fails at the limit")
+			}
+		}
+	}
+	if nLim == 0 {
+		c.Und("C13-R7", "size-limited readers", token.NoPos, "no use of the failing size-limited reader found in the filter packages")
+	}
 	// ---- R6: an invalid entry of the blocked-service index rejects the whole update (the previous service map stays)
 	c.Floor("C13-R6", 1)
 	decide(c, "C13-R6", "filter/internal/serviceblock.(*indexResp).toInternal", an.DecideCfg{
